@@ -416,3 +416,50 @@ def replay_model_cases_batch(recs, nproc=16):
                 total[k] += st[k]
             bad.extend(b)
     return total, bad
+
+
+EULER_ALIASES = ["explicit_euler", "euler", "forward_euler", "forward_explicit_euler"]
+GRL_ALIASES = ["generalized_rush_larsen", "forward_generalized_rush_larsen"]
+
+
+def check_aliases(rec):
+    """C05: the explicit Euler function under every accepted name (and the GRL aliases) computes the same step."""
+    from . import gx
+    import warnings
+    import numpy as np
+    from gotranx.codegen.python import PythonCodeGenerator, Format
+    from gotranx.schemes import get_scheme
+
+    stats = {"compared": 0, "undefined": 0, "calls": 0}
+    bad = []
+    text = render_text(rec["blocks"])
+    ode = gx.load(text)
+    cg = PythonCodeGenerator(ode, format=Format.none)
+    ns0 = gx.exec_module(gx.numpy_code(ode))
+    snames = [e["name"] for b in rec["blocks"] if b["k"] == "states" for e in b["entries"]]
+    pnames = [e["name"] for b in rec["blocks"] if b["k"] == "parameters" for e in b["entries"]]
+    for alias, key in [(a, "explicit_euler") for a in EULER_ALIASES] + [(a, "generalized_rush_larsen") for a in GRL_ALIASES]:
+        with warnings.catch_warnings():
+            warnings.simplefilter("ignore")
+            kw = {"delta": float(rec.get("delta", "1e-8"))} if "rush" in alias else {}
+            code = cg.scheme(get_scheme(alias), **kw)
+        ns = {}
+        exec(cg.imports() + "\n" + code, ns)
+        if alias not in ns:
+            bad.append({"tag": "alias-name", "alias": alias, "text": text, "defined": [k for k in ns if not k.startswith("_")][:5]})
+            continue
+        for c in rec["cases"]:
+            inp = c["input"]
+            s = np.zeros(len(snames))
+            p = np.zeros(len(pnames))
+            for n in snames:
+                s[ns0["state_index"](n)] = qf(inp["states"][n])
+            for n in pnames:
+                p[ns0["parameter_index"](n)] = qf(inp["params"][n])
+            with gx.quiet_np():
+                vals = ns[alias](s, qf(inp["t"]), qf(inp["dt"]), p)
+            stats["calls"] += 1
+            for n in snames:
+                _cmp(bad, stats, "alias-" + key, n, float(vals[ns0["state_index"](n)]), c["expect"][key][n],
+                     {"text": text, "alias": alias, "fn": alias})
+    return stats, bad
